@@ -104,6 +104,11 @@ func compRun(args []string) error {
 		if probe, err = compdrv.ProbeRejectsForwardRefs(*fault); err != nil {
 			return err
 		}
+	case "acceptRepeatedParams":
+		var err error
+		if probe, err = compdrv.ProbeAcceptsRepeatedParams(*fault); err != nil {
+			return err
+		}
 	case "leakResults":
 		var err error
 		if probe, err = compdrv.ProbeLeaksResults(*fault); err != nil {
